@@ -258,6 +258,10 @@ static const struct fdtab *fork_base;
 static void at_step(struct live *lv)
 {
     if (step_no++ != fork_at_step) return;
+    /* the owner sits in its event loop when the fork happens: conditions awaited, wake-up bells possibly ringing */
+    if (lv->cl) { SCX("xcm_await", 0); xcm_await(lv->cl, XCM_SO_RECEIVABLE); vs_leave(); }
+    if (lv->ac) { SCX("xcm_await", 1); xcm_await(lv->ac, XCM_SO_RECEIVABLE | XCM_SO_SENDABLE); vs_leave(); }
+    if (lv->sv) { SCX("xcm_await", 2); xcm_await(lv->sv, XCM_SO_ACCEPTABLE); vs_leave(); }
     fflush(stdout); fflush(stderr);
     pid_t pid = fork();
     if (pid < 0) return;
@@ -404,6 +408,19 @@ static void one_case(long idx, void *arg)
         fork_at_step = -1;
         /* the owner carries on: the connection, the peer and the files are untouched */
         if (lv.ready) {
+            /* the owner's event loop still works: a message sent by the peer makes the awaited socket's fd readable */
+            unsigned char one[64]; memset(one, 5, sizeof one);
+            { SCX("xcm_await", 0); xcm_await(lv.cl, XCM_SO_RECEIVABLE); vs_leave(); }
+            int xfd; { SCX("xcm_fd", 0); xfd = xcm_fd(lv.cl); vs_leave(); }
+            /* drain whatever was pending first (one speculative receive until EAGAIN, as an event loop does) */
+            for (int i = 0; i < 50; i++) { unsigned char rb[300]; int rc = S_receive(lv.cl, 0, rb, sizeof rb); if (rc <= 0) break; }
+            { SCX("xcm_await", 0); xcm_await(lv.cl, XCM_SO_RECEIVABLE); vs_leave(); }
+            if (S_send(lv.ac, 1, one, sizeof one) >= 0) {
+                bool woke = false;
+                for (int i = 0; i < 1000 && !woke; i++) { S_finish(lv.ac, 1); struct pollfd pf = { .fd = xfd, .events = POLLIN }; if (vs_real_poll(&pf, 1, 1) > 0) woke = true; }
+                if (!woke) lv8("owner-wakeup-lost", site, "after a forked child called xcm_cleanup the owner's awaited socket no longer becomes readable when the peer sends");
+                else { vobs("owner_wakeup_after_cleanup_ok", 1); unsigned char rb[300]; size_t got = 0; for (int i = 0; i < 2000 && got < sizeof one; i++) { int rc = S_receive(lv.cl, 0, rb, sizeof rb); if (rc > 0) got += (size_t)rc; else if (rc == 0 || errno != EAGAIN) break; else napms(1); } }
+            }
             if (!S_msg(lv.cl, 0, lv.ac, 1, lv.bytestream, 3) || !S_msg(lv.ac, 1, lv.cl, 0, lv.bytestream, 4)) lv8("owner-connection-damaged", site, "after a forked child called xcm_cleanup the owner's connection no longer carries messages");
             else vobs("owner_traffic_after_cleanup_ok", 1);
         }
